@@ -1932,15 +1932,45 @@ def c18c(chk):
 def c18e(chk):
     prog = chk.prog
     bw = []
+    flushed = []
     for f in prog.fn_list:
         if f.derived:
             continue
-        for l in f.locals:
-            if "std::io::buffered::bufwriter::BufWriter" in l["ty"] or "std::io::buffered::linewriter::LineWriter" in l["ty"]:
-                bw.append(f.path)
+        locs = [i for i, l in enumerate(f.locals) if "std::io::buffered::bufwriter::BufWriter" in l["ty"] or "std::io::buffered::linewriter::LineWriter" in l["ty"]]
+        if not locs:
+            continue
+        # a buffered writer that lives and dies in one function is fine if that function cannot succeed without flushing it: every way
+        # from its construction to a return passes `w.flush()` / `w.into_inner()` whose Result is handed on, or an error return (`?`)
+        ok_here = True
+        news = [(b, t) for b, t in f.calls() if callee_name(t["callee"]).split("::")[-1] in ("new", "with_capacity") and "BufWriter" in callee_name(t["callee"])]
+        owners = {an.call_dest_local(t) for b, t in news}
+        plain = [i for i in locs if not f.local_ty(i).startswith(("&", "alloc::boxed::Box<"))]
+        if not news or not owners or any(f.copy_root(i) not in owners and i not in owners and not f.local_ty(i).startswith("&") for i in plain):
+            ok_here = False
+        else:
+            for nb, nt in news:
+                w = an.call_dest_local(nt)
+                stops = set()
+                for b2, t2 in f.calls():
+                    nm = callee_name(t2["callee"]).split("::")[-1]
+                    if nm in ("flush", "into_inner") and t2["args"]:
+                        tg = f.resolve_ptr(op_local(t2["args"][0])) if op_local(t2["args"][0]) is not None else None
+                        owner = tg[0] if tg is not None else (f.copy_root(op_local(t2["args"][0])) if op_local(t2["args"][0]) is not None else None)
+                        d2 = an.call_dest_local(t2)
+                        handed_on = d2 == 0 or an.try_branch_of(f, b2) is not None or d2 in (f.raw.get("inlined_ret") or []) or \
+                            any(x[0] == "assign" and x[3]["k"] == "use" and op_local(x[3]["op"]) == d2 for x in f.defs.get(0, []))
+                        if owner is not None and f.copy_root(owner) == f.copy_root(w) and handed_on:
+                            stops.add(b2)
+                    if callee_is(t2["callee"], N.FROM_RESIDUAL):
+                        stops.add(b2)
+                silent = [b3 for b3 in f.reachable_from(nb, avoid=stops) if f.term(b3)["k"] == "return"] if nb not in stops else []
+                if not stops or silent:
+                    ok_here = False
+        (flushed if ok_here else bw).append(f.path)
     for a in prog.adts.values():
         for v in a["variants"]:
             for fld in v["fields"]:
                 if "BufWriter" in fld["ty"]:
                     bw.append(a["path"])
-    chk.ob("C18.e", "no-BufWriter", not bw, "", "no BufWriter/LineWriter value exists in the workspace, so no buffered bytes can be lost on drop without an error (found in %s)" % sorted(set(bw)))
+    chk.extra["bufwriters_flushed_before_success"] = sorted(set(flushed))
+    chk.ob("C18.e", "no-BufWriter", not bw, "", "no BufWriter/LineWriter value exists in the workspace that could be dropped with unwritten bytes: none at all, or only ones whose function cannot return without `flush()?` / an error (unflushed or escaping: %s; flushed before every success: %s)" % (sorted(set(bw)), sorted(set(flushed))))
